@@ -2,6 +2,7 @@ import Rbp.Proofs.Utxo
 import Rbp.Proofs.Wire
 import Rbp.Proofs.RunSpec
 import Rbp.Props.C10
+import Rbp.Proofs.UtxoSize
 /-!
 # C07 — unspentcsvdump lists exactly the unspent, address-bearing outputs of the range
 -/
@@ -61,6 +62,13 @@ theorem unknown_outpoint_not_listed (ver : UInt8) (bs : List EBlock) (k : Bytes)
   | some v =>
     obtain ⟨pre, post, he, _⟩ := (listed_iff ver bs k v).mp hv
     exact absurd rfl (h (U.Op.create k v) (by rw [he]; simp) v)
+
+/-- the dump never has more rows than address-bearing outputs were created in the range: a spend only removes, a creation adds
+    at most one row (a repeated outpoint — the duplicate coinbases of BIP30 fame — replaces) -/
+theorem rows_bounded_by_creations (ver : UInt8) (bs : List EBlock) :
+    (utxo ver bs).size ≤ U.creates (opsOf ver bs) := by
+  rw [utxo_eq_run]
+  simpa using U.run_size_le (opsOf ver bs) (∅ : HashMap Bytes Unspent)
 
 /-- **whole run.**  For a stored chain (every height of the range holds a well-formed block where its record says),
     `unspentcsvdump` exits 0 and writes one file `unspent-start-maxH.csv`: the header followed by one row per binding of the
